@@ -30,7 +30,8 @@ SPECS['C02'] = {'runs': parse_runs('C02', ['C02'], 7, 9, 5, 6, 7, 8, ip6=True), 
     'bounds': {'quick': 'N<=7 (char), N<=5 (wchar_t), IP-literal tail M<=7; shape-bounded IPv6 / IPv4 / authority texts', 'thorough': 'N<=9, W N<=6, M<=8'}, 'outside': 'longer texts'}
 SPECS['C03'] = {'runs': parse_runs('C03', ['C03'], 7, 9, 5, 6, 7, 8, extra=[
         R('parseMID', 'h_parse.c', ['P_C03', 'P_C02', 'MID', 'NMAX=5'], 'range of length 0..5 in the middle of a buffer with 2 symbolic characters on each side', ['accepted'], 600),
-        R('parseFAIL', 'h_parse.c', ['P_C03', 'FAILING', 'NMAX=5'], 'every subset of failing allocations, texts of length 0..5', ['alloc-failure-injected'], 600)]),
+        R('parseFAIL', 'h_parse.c', ['P_C03', 'FAILING', 'NMAX=5'], 'every subset of failing allocations, texts of length 0..5', ['alloc-failure-injected'], 600),
+        R('entry-points', 'h_entry.c', ['NMAX=4'], 'no residue after a failed parse through uriParseUriEx / uriParseUri / uriParseSingleUri / uriParseSingleUriEx(NULL): all NUL-terminated char strings of length 0..4', ['rejected', 'uriParseUriEx', 'uriParseUri'], 600)]),
     'assumptions': COMMON_ASSUME, 'bounds': {'quick': 'N<=7 / W N<=5 / M<=7; mid-buffer and failure injection N<=5', 'thorough': 'N<=9 / W 6 / M<=8'}, 'outside': 'longer texts'}
 HOSTS_RUN = lambda P, b: R('parse-hosts', 'h_parse.c', ['P_' + p for p in P] + ['GENTEXT=(G_SCHEME_OPT|G_AUTH_REQ|G_USERINFO|G_PORT|G_HOSTKINDS|G_EMPTYHOST)', 'GENK=1', 'GENL=1'], '[scheme] // [userinfo@] host [:port] [/seg]: every host kind incl. IPv4 with 1..3 digit octets and full-form IPv6, characters over [a-z] / digits', ['host-ip4', 'host-ip6', 'host-ipfuture', 'host-regname'], b)
 GENTEXT_RUN = lambda P, b: R('parse-shapes', 'h_parse.c', ['P_' + p for p in P] + ['GEN_WIDE_CHARS', 'GENTEXT=(G_SCHEME_OPT|G_AUTH|G_USERINFO|G_PORT|G_EMPTYHOST|G_QUERY|G_FRAG|G_PCT)', 'GENK=1', 'GENL=1'], 'shape-bounded texts with every optional component, every character over its full RFC 3986 class, one percent triplet (up to ~14 characters)', ['accepted', 'host-regname', 'has-scheme'], b)
